@@ -189,6 +189,16 @@ impl DS {
         self.text_with_counts(1, 1)
     }
 
+    /// the text form, abbreviated for messages when it is large (replay files carry the full case)
+    pub fn short(&self) -> String {
+        let t = self.text();
+        if t.len() > 600 {
+            format!("{} ... ({} chambers)", &t[..300], self.size)
+        } else {
+            t
+        }
+    }
+
     pub fn text_with_counts(&self, a: usize, b: usize) -> String {
         let mut s = format!("<{}.{}:", a, b);
         if self.dim == 2 {
